@@ -1,20 +1,21 @@
 /-
   C04 — completion of a tight program's theory has exactly its stable models.
-  Status (partial): proved are (1) the refusal half (`completion_refuses`: whatever `completion`
-  accepts is completable in the sense of the independent specification `Completable`, and
-  predicates never get two different heads), and (2) the model-theoretic core at the level of the
-  reference semantics (`tight_stable_iff_supported`, Fages' theorem for mini-gringo with input
-  predicates: for a program reported tight, stable = supported classical model, where "supported"
-  is the reference form of the completed definitions) together with its tau* reading
-  (`tight_equilibrium_iff_supported`). What is not proved is that the formulas `completion`
-  builds from the tau* theory say exactly "model and supported" (`CompletionTight` stays stated);
-  that step is tied by the exact-output correspondence.
+  Status: proved at full strength (`completion_tight : CompletionTight`). Layers: (1) the refusal
+  half (`completion_refuses`: whatever `completion` accepts is completable in the sense of the
+  independent specification `Completable`, predicates never get two heads); (2) Fages' theorem at
+  the level of the reference semantics (`tight_stable_iff_supported`, with input predicates;
+  tightness is exact by C11) and its tau* reading; (3) the formula level (Proofs/CompletionSem.lean):
+  tau* formulas are closed and split into constraints and partial definitions with pairwise distinct
+  variable heads, the grouping by head atom, empty definitions for predicates without rules, no head
+  mismatch, inputs left open, and the meaning of each completed definition
+  `forall V (p(V) <-> exists U body_1 or ...)` in terms of the reference semantics.
 -/
 import AnthemModel.Model.Completion
 import AnthemModel.Model.Analyze
 import AnthemModel.Model.TauStar
 import AnthemModel.Semantics.Asp
 import AnthemModel.Proofs.Fages
+import AnthemModel.Proofs.CompletionSem
 namespace Anthem.C04
 open Asp
 
@@ -84,6 +85,14 @@ theorem non_tight_counterexample :
         obtain ⟨ds, _, h⟩ := this
         exact h.elim
       · cases ds <;> simp [valsList] at hv ⊢ <;> exact ⟨rfl, rfl⟩
+
+/-- **C04.** For every program that `is_tight` accepts (and whose global-variable indices do not
+    overflow) and every set of input predicates that do not occur in rule heads: `completion`
+    accepts the tau* theory, and a classical interpretation over the program's signature satisfies
+    all completed definitions and constraints iff it is a stable model of the program with its own
+    input facts. -/
+theorem completion_tight : CompletionTight :=
+  fun P ins htight hp hins => Anthem.completion_tight P ins htight hp hins
 
 /-- Independent specification of a completable formula: closed; after at most one universal
     quantifier an implication (either direction) whose consequent is `#false` or an atom whose
